@@ -77,13 +77,13 @@ fn enc_deps(v: &[String]) -> String {
     if v.is_empty() {
         return "-".into();
     }
-    v.iter().map(|d| enc_name(d)).collect::<Vec<_>>().join(",")
+    v.iter().map(|d| if d.is_empty() { "%".to_string() } else { enc_name(d) }).collect::<Vec<_>>().join(",")
 }
 fn dec_deps(s: &str) -> Vec<String> {
     if s == "-" {
         return vec![];
     }
-    s.split(',').map(dec_name).collect()
+    s.split(',').map(|d| if d == "%" { String::new() } else { dec_name(d) }).collect()
 }
 
 fn write_ops(out: &mut String, ops: &[Op], ind: usize) {
@@ -397,6 +397,9 @@ impl Gen<'_> {
             }
             if self.sh.ill_formed && depth == 0 && self.rng.chance(6) {
                 deps.push(format!("ghost{}", self.rng.below(3)));
+            }
+            if self.sh.ill_formed && depth == 0 && self.rng.chance(4) {
+                deps.push(String::new()); // the empty name is never a registered system
             }
             if self.sh.self_dep && depth == 0 && !name.is_empty() && self.rng.chance(8) {
                 deps.push(name.clone());
